@@ -71,8 +71,13 @@ impl vstd::std_specs::cmp::PartialOrdSpecImpl for UniverseIndex {
 impl PartialOrd for UniverseIndex { #[verifier::external_body] fn partial_cmp(&self, other: &Self) -> Option<core::cmp::Ordering> { unimplemented!() } }
 
 impl UniverseIndex {
+    pub const ROOT: UniverseIndex = UniverseIndex { counter: 0 };
 //@FN file=chalk-ir/src/lib.rs within="^impl UniverseIndex$" fn=can_see contract=can_see path=UniverseIndex::can_see
+//@FN file=chalk-ir/src/lib.rs within="^impl UniverseIndex$" fn=root contract=ui_root path=UniverseIndex::root
 }
+//@CONTRACT ui_root
+    ensures r.counter == 0,
+//@END
 //@CONTRACT can_see
     ensures r == (self.counter >= ui.counter),
 //@END
@@ -127,11 +132,31 @@ impl<I: Interner> Lifetime<I> {
 impl<I: Interner> Const<I> {
     #[verifier::external_body]
     pub fn needs_shift(&self, interner: I) -> (r: bool) ensures r == spec_ct_needs_shift(*self) { unimplemented!() }
+    /// HAVOC (the generic fold of a constant with the occurs check as folder).  Besides what the leaf contracts need,
+    /// its outcome is an uninterpreted function of the check's parameters and of the state it ran on, so that a
+    /// caller's contract can say exactly which check was run, and on what.
     #[verifier::external_body]
     pub fn try_fold_with<'u, 't>(self, folder: &mut OccursCheck<'u, 't, I>, outer_binder: DebruijnIndex) -> (r: Fallible<Const<I>>)
         ensures final(folder).v_var() == old(folder).v_var(), final(folder).v_universe() == old(folder).v_universe(),
                 r matches Ok(t) ==> !spec_ct_needs_shift(t),
+                (r, final(folder).tview(), final(folder).goal_seq())
+                    == spec_check_const(self, old(folder).v_var(), old(folder).v_universe(), old(folder).tview(), old(folder).goal_seq(), old(folder).env()),
+                final(folder).env() == old(folder).env(),
+                *final(final(folder).unifier_ref()) == *final(old(folder).unifier_ref()),
     { unimplemented!() }
+}
+pub uninterp spec fn spec_check_const<I: Interner>(c: Const<I>, var: EnaVariable<I>, universe: UniverseIndex, table: TableView<I>, goals: Seq<InEnvironment<Goal<I>>>, env: Environment<I>)
+    -> (Fallible<Const<I>>, TableView<I>, Seq<InEnvironment<Goal<I>>>);
+pub uninterp spec fn arg_of_const<I: Interner>(c: Const<I>) -> GenericArg<I>;
+pub uninterp spec fn arg_of_ty<I: Interner>(t: Ty<I>) -> GenericArg<I>;
+impl<I: Interner> Const<I> {
+    /// `CastTo<GenericArg<I>>`
+    #[verifier::external_body]
+    pub fn cast(self, interner: I) -> (r: GenericArg<I>) ensures r == arg_of_const(self) { unimplemented!() }
+}
+impl<I: Interner> Ty<I> {
+    #[verifier::external_body]
+    pub fn cast(self, interner: I) -> (r: GenericArg<I>) ensures r == arg_of_ty(self) { unimplemented!() }
 }
 pub uninterp spec fn spec_lt_needs_shift<I: Interner>(t: Lifetime<I>) -> bool;
 pub uninterp spec fn spec_ct_needs_shift<I: Interner>(t: Const<I>) -> bool;
@@ -150,6 +175,10 @@ impl<I: Interner> Ty<I> {
     { unimplemented!() }
 }
 
+/// stands for ena's `K1: Into<EnaVariable<I>>` bounds
+pub trait IntoEna<I: Interner>: Sized { spec fn spec_ena(self) -> EnaVariable<I>; }
+impl<I: Interner> IntoEna<I> for InferenceVar { open spec fn spec_ena(self) -> EnaVariable<I> { ena_of::<I>(self) } }
+impl<I: Interner> IntoEna<I> for EnaVariable<I> { open spec fn spec_ena(self) -> EnaVariable<I> { self } }
 /// union-find view of ena's table: class representative and universe of every unbound variable
 #[verifier::reject_recursive_types(I)]
 pub struct TableView<I: Interner> {
@@ -159,23 +188,30 @@ pub struct TableView<I: Interner> {
 impl<I: Interner> EnaTable<I> {
     pub uninterp spec fn view(&self) -> TableView<I>;
     #[verifier::external_body]
-    pub fn probe_value(&mut self, v: EnaVariable<I>) -> (r: InferenceValue<I>)
-        ensures final(self).view() == old(self).view(), r == old(self).view().value[old(self).view().root[v]]
+    pub fn probe_value<K1: IntoEna<I>>(&mut self, v: K1) -> (r: InferenceValue<I>)
+        ensures final(self).view() == old(self).view(), r == old(self).view().value[old(self).view().root[v.spec_ena()]]
     { unimplemented!() }
     /// ena: are the two variables in the same class?
     #[verifier::external_body]
-    pub fn unioned(&mut self, a: EnaVariable<I>, b: EnaVariable<I>) -> (r: bool)
-        ensures final(self).view() == old(self).view(), r == (old(self).view().root[a] == old(self).view().root[b])
+    pub fn unioned<K1: IntoEna<I>, K2: IntoEna<I>>(&mut self, a: K1, b: K2) -> (r: bool)
+        ensures final(self).view() == old(self).view(), r == (old(self).view().root[a.spec_ena()] == old(self).view().root[b.spec_ena()])
     { unimplemented!() }
     /// ena: the representative of the variable's class
     #[verifier::external_body]
-    pub fn find(&mut self, a: EnaVariable<I>) -> (r: EnaVariable<I>)
-        ensures final(self).view() == old(self).view(), r == old(self).view().root[a]
+    pub fn find<K1: IntoEna<I>>(&mut self, a: K1) -> (r: EnaVariable<I>)
+        ensures final(self).view() == old(self).view(), r == old(self).view().root[a.spec_ena()]
+    { unimplemented!() }
+    /// ena: merging the classes of two UNBOUND variables cannot fail; afterwards they share a representative
+    #[verifier::external_body]
+    pub fn unify_var_var<K1: IntoEna<I>, K2: IntoEna<I>>(&mut self, a: K1, b: K2) -> (r: Result<(), ()>)
+        ensures
+            (old(self).view().value[old(self).view().root[a.spec_ena()]] is Unbound && old(self).view().value[old(self).view().root[b.spec_ena()]] is Unbound) ==> r is Ok,
+            r is Ok ==> final(self).view().root[a.spec_ena()] == final(self).view().root[b.spec_ena()],
     { unimplemented!() }
     #[verifier::external_body]
-    pub fn unify_var_value(&mut self, a: EnaVariable<I>, v: InferenceValue<I>) -> (r: Result<(), ()>)
+    pub fn unify_var_value<K1: IntoEna<I>>(&mut self, a: K1, v: InferenceValue<I>) -> (r: Result<(), ()>)
         ensures r is Ok, final(self).view().root == old(self).view().root,
-                final(self).view().value == old(self).view().value.insert(old(self).view().root[a], v)
+                final(self).view().value == old(self).view().value.insert(old(self).view().root[a.spec_ena()], v)
     { unimplemented!() }
 }
 #[verifier::reject_recursive_types(I)]
@@ -209,7 +245,78 @@ impl<'u, 't, I: Interner> OccursCheck<'u, 't, I> {
     pub closed spec fn tview(self) -> TableView<I> { (*self.unifier).tview() }
     pub closed spec fn goal_seq(self) -> Seq<InEnvironment<Goal<I>>> { (*self.unifier).goal_seq() }
     pub closed spec fn env(self) -> Environment<I> { (*self.unifier).env() }
+    pub closed spec fn unifier_ref(self) -> &'u mut Unifier<'t, I> { self.unifier }
+//@FN file=chalk-solve/src/infer/unify.rs within="^impl<'u, 't, I: Interner> OccursCheck<'u, 't, I>$" fn=new contract=oc_new path=OccursCheck::new
 }
+//@CONTRACT oc_new
+    ensures r.v_var() == var, r.v_universe() == universe_index,
+            // the check works on the caller's unifier: same state now, and what it does to it is what the caller sees afterwards
+            *r.unifier_ref() == *old(unifier), *final(unifier) == *final(r.unifier_ref()),
+//@END
+
+impl<I: Interner> InferenceValue<I> {
+//@FN file=chalk-solve/src/infer/var.rs within="^impl<I: Interner> InferenceValue<I>$" fn=from_ty contract=from_ty path=InferenceValue::from_ty
+//@FN file=chalk-solve/src/infer/var.rs within="^impl<I: Interner> InferenceValue<I>$" fn=from_const contract=from_const path=InferenceValue::from_const
+}
+//@CONTRACT from_ty
+    ensures r == InferenceValue::<I>::Bound(arg_of_ty(ty)),
+//@END
+//@CONTRACT from_const
+    ensures r == InferenceValue::<I>::Bound(arg_of_const(constant)),
+//@END
+
+impl<I: Interner> InferenceTable<I> {
+//@FN file=chalk-solve/src/infer.rs within="^impl<I: Interner> InferenceTable<I>$" fn=universe_of_unbound_var contract=universe_of path=InferenceTable::universe_of_unbound_var
+}
+//@CONTRACT universe_of
+    // "Panics if the variable is bound."
+    requires old(self).unify.view().value[old(self).unify.view().root[var]] is Unbound,
+    ensures final(self).unify.view() == old(self).unify.view(),
+            InferenceValue::<I>::Unbound(r) == old(self).unify.view().value[old(self).unify.view().root[var]],
+//@END
+
+impl<'t, I: Interner> Unifier<'t, I> {
+//@FN file=chalk-solve/src/infer/unify.rs within="^impl<'t, I: Interner> Unifier<'t, I>$" fn=unify_var_var contract=unify_var_var path=Unifier::unify_var_var
+//@FN file=chalk-solve/src/infer/unify.rs within="^impl<'t, I: Interner> Unifier<'t, I>$" fn=unify_general_var_specific_ty contract=unify_general path=Unifier::unify_general_var_specific_ty
+//@FN file=chalk-solve/src/infer/unify.rs within="^impl<'t, I: Interner> Unifier<'t, I>$" fn=unify_var_const contract=unify_var_const path=Unifier::unify_var_const
+}
+//@CONTRACT unify_var_var
+    requires
+        // "unification of two unbound variables cannot fail" (the code's `expect`)
+        old(self).tview().value[old(self).tview().root[ena_of::<I>(a)]] is Unbound,
+        old(self).tview().value[old(self).tview().root[ena_of::<I>(b)]] is Unbound,
+    ensures
+        r is Ok,
+        // afterwards the two unknowns are one class, and no other class changed
+        final(self).tview().root[ena_of::<I>(a)] == final(self).tview().root[ena_of::<I>(b)],
+        final(self).goal_seq() == old(self).goal_seq(),
+//@END
+//@CONTRACT unify_general
+    ensures
+        r is Ok,
+        final(self).tview().root == old(self).tview().root,
+        final(self).tview().value == old(self).tview().value.insert(old(self).tview().root[ena_of::<I>(general_var)], InferenceValue::<I>::Bound(arg_of_ty(specific_ty))),
+        final(self).goal_seq() == old(self).goal_seq(),
+//@END
+//@CONTRACT unify_var_const
+    requires
+        // the unknown is still unbound (call sites: `relate_const_const` after shallow normalization)
+        old(self).tview().value[old(self).tview().root[ena_of::<I>(var)]] is Unbound,
+    ensures
+        ({
+            let v = ena_of::<I>(var);
+            let ui = old(self).tview().value[old(self).tview().root[v]]->Unbound_0;
+            // C14: THE occurs check is run on the constant, for this unknown and ITS universe, on the current state ...
+            let checked = spec_check_const(*c, v, ui, old(self).tview(), old(self).goal_seq(), old(self).env());
+            // ... a failed check binds nothing,
+            &&& checked.0 is Err ==> r is Err && final(self).tview() == checked.1 && final(self).goal_seq() == checked.2
+            // ... and on success the unknown's class is bound to the CHECKED constant (not the original one)
+            &&& checked.0 matches Ok(c1) ==> r is Ok
+                    && final(self).tview().root == checked.1.root
+                    && final(self).tview().value == checked.1.value.insert(checked.1.root[v], InferenceValue::<I>::Bound(arg_of_const(c1)))
+                    && final(self).goal_seq() == checked.2
+        }),
+//@END
 
 // ------------------------------------------------------------- real functions
 pub trait FallibleTypeFolder<I: Interner> {
